@@ -338,6 +338,18 @@ theorem run_instances (A : Arbo P.edges r) (ho : toposort P.edges = some P.order
 
 end run
 
+/-- **Grouping is a function of its arguments** (no state survives a call): in any history of
+    calls — the same matches grouped again with other `min_line_scores` / `min_instance_peaks`, a second
+    `predict` — the answer of call `i` is the answer of that call alone.  (Trivial of the model; it
+    is the statement the harness holds the code to: inputs bit-identical after every call, every call
+    of a history compared with the model run on that call only.) -/
+theorem grouping_call_independent [Add R] [Neg R] [LT R] [DecidableLT R] [LE R] [DecidableLE R]
+    [OfNat R 0] [OfNat R 1] (fixed : Bool) (lsa : Lsa R)
+    (calls : List (Params R × List Nat × List (Mat (Option R)))) (i : Nat) :
+    (calls.map fun c => groupSample fixed lsa c.1 c.2.1 c.2.2)[i]?
+      = (calls[i]?).map fun c => groupSample fixed lsa c.1 c.2.1 c.2.2 := by
+  simp [List.getElem?_map]
+
 /-! ## optimality of the per-edge matches (from the solver contract) -/
 
 section optimal
